@@ -29,8 +29,8 @@ def gen_batch(rng):
         if kind == "masked":
             return pose
         if kind == "tuple":
-            return {"tuple": [pose, gen_tensor(rng, lens[bs - 1 - i], (2,), False), {"int": rng.randint(-5, 5)}]}
-        fields = [["pose", pose], ["x", gen_tensor(rng, lens[i], (1,), False)], ["id", {"int": i * 7 - 3}], ["text", {"str": rng.choice(["a", "bé", ""])}]]
+            return {"tuple": [pose, gen_tensor(rng, lens[bs - 1 - i], (2,), False), {"int": rng.choice([rng.randint(-5, 5), 16777217, 2 ** 40 + 3])}]}
+        fields = [["pose", pose], ["x", gen_tensor(rng, lens[i], (1,), False)], ["id", {"int": rng.choice([i * 7 - 3, 2 ** 24 + 1 + 2 * i, -(2 ** 31) + i, 2 ** 53 + 1, 1_700_000_000_123 + i])}], ["text", {"str": rng.choice(["a", "bé", ""])}]]
         if nested:
             fields.append(["inner", {"dict": [["m", gen_tensor(rng, lens[(i + 1) % bs], trail, True)], ["n", {"int": i}]]}])
         if with_tuple:
